@@ -22,6 +22,7 @@ import (
 	"strconv"
 	"strings"
 	"sync"
+	"sync/atomic"
 	"testing"
 	"time"
 
@@ -390,6 +391,14 @@ func seedFor(name string) uint64 {
 	return s
 }
 
+var shrinking int32
+
+// Shrinking reports whether the running Check has already found an unknown
+// failure and is now minimising it. Properties with liveness-bounded waits
+// skip their (slow) re-validation run while shrinking: the failure has been
+// confirmed once, and the replay of the final case re-validates again.
+func Shrinking() bool { return atomic.LoadInt32(&shrinking) == 1 }
+
 // Check runs n generated cases (per process).
 func (p *Prop[C]) Check(t *testing.T, n int) {
 	t.Helper()
@@ -400,16 +409,16 @@ func (p *Prop[C]) Check(t *testing.T, n int) {
 	flag.Set("rapid.checks", strconv.Itoa(n))
 	flag.Set("rapid.seed", strconv.FormatUint(seedFor(p.ID+"/"+p.Name), 10))
 	flag.Set("rapid.nofailfile", "true")
-	if flag.Lookup("rapid.shrinktime").Value.String() == "30s" {
-		flag.Set("rapid.shrinktime", "60s")
-	}
+	flag.Set("rapid.shrinktime", "40s")
 
 	var (
 		failed   bool
 		lastRaw  []byte
 		lastFail Failure
 	)
+	atomic.StoreInt32(&shrinking, 0)
 	t.Cleanup(func() {
+		atomic.StoreInt32(&shrinking, 0)
 		if !failed {
 			return
 		}
@@ -441,6 +450,7 @@ func (p *Prop[C]) Check(t *testing.T, n int) {
 		}
 		if f := p.triage(cs, v, !failed); f != nil {
 			failed = true
+			atomic.StoreInt32(&shrinking, 1)
 			lastRaw, lastFail = raw, *f
 			rt.Fatalf("%s: %s", f.Sig, f.Msg)
 		}
